@@ -23,6 +23,8 @@ def obligations(ctx, tier):
     configs = ["Kd", "Kr"] if tier == "quick" else ["Kd", "Kr", "Kd0", "Kr0"]
     for cfg in configs:
         K = ctx.k(cfg)
+        from . import digits
+        out += digits.mul_rows(K, PROP)
         for A in ADTS:
             out += arith.mode_rows(K, PROP, A, "mul", "TT", lambda W, a, b: a * b, "overflow(mul)")
             T = T_(A)
